@@ -137,7 +137,7 @@ impl Property for C19 {
     }
     fn runs(&self, tier: &str) -> u64 {
         if tier == "thorough" {
-            150_000
+            100_000
         } else {
             4_000
         }
